@@ -57,6 +57,8 @@ TrLeap ==
     /\ IsEvent("leap")
     /\ phase = "ext" /\ Top.other = None
     /\ R.start = LeapStart /\ R.d = dir
+    \* divergent exactly when the energy error exceeds the configured max_energy_error (harness-side, from the settings)
+    /\ R.eeok
     /\ IF R.res = "ok"
        THEN /\ R["end"] = LeapStart + dir
             /\ Leap("ok", 0, [ph |-> R.ph, logp |-> R.logp, energy |-> R.energy, gh |-> R.gh])
